@@ -21,6 +21,13 @@ several equivalent spellings the source uses:
                 element is a call of f on the loop variable alone) is
                 written `list(map(f, xs))`
 
+  loops         `X = []; for T in IT: X.append(E)` and `X = {}; for T in IT:
+                X[K] = V` (adjacent, one-statement body) are written as the
+                comprehension `X = [E for T in IT]` / `X = {K: V for ..}`
+
+  strings       `'a' + x + 'b'` is written as the f-string f'a{x}b';
+                `k in d.keys()` as `k in d`
+
 Ordering comparisons are never negated (`not a < b` is not `a >= b` for NaN).
 Line numbers are kept, so reports still point at the source.
 """
@@ -55,6 +62,12 @@ class Canon(ast.NodeTransformer):
         if len(n.ops) != 1:
             return n
         op = type(n.ops[0])
+        # `k in d.keys()` == `k in d`
+        c0 = n.comparators[0]
+        if op in (ast.In, ast.NotIn) and isinstance(c0, ast.Call) and \
+                isinstance(c0.func, ast.Attribute) and c0.func.attr == 'keys' \
+                and not c0.args and not c0.keywords:
+            n.comparators = [c0.func.value]
         if op in FLIP:
             return ast.copy_location(ast.Compare(
                 n.comparators[0], [FLIP[op]()], [n.left]), n)
@@ -63,6 +76,45 @@ class Canon(ast.NodeTransformer):
             return ast.copy_location(ast.Compare(
                 n.comparators[0], [op()], [n.left]), n)
         return n
+
+    @staticmethod
+    def _is_strlike(e):
+        return isinstance(e, ast.JoinedStr) or (
+            isinstance(e, ast.Constant) and isinstance(e.value, str))
+
+    @staticmethod
+    def _parts(e):
+        if isinstance(e, ast.JoinedStr):
+            return list(e.values)
+        if isinstance(e, ast.Constant) and isinstance(e.value, str):
+            return [e]
+        return [ast.copy_location(ast.FormattedValue(e, -1, None), e)]
+
+    @staticmethod
+    def _join(parts, at):
+        out = []
+        for p in parts:
+            if isinstance(p, ast.Constant) and out and isinstance(
+                    out[-1], ast.Constant):
+                out[-1] = ast.copy_location(ast.Constant(
+                    out[-1].value + p.value), out[-1])
+            elif isinstance(p, ast.Constant) and p.value == '':
+                continue
+            else:
+                out.append(p)
+        return ast.copy_location(ast.JoinedStr(out), at)
+
+    def visit_BinOp(self, n):
+        self.generic_visit(n)
+        # 'text' + x  ==  f'text{x}'  (x must be a string for the sum to work)
+        if isinstance(n.op, ast.Add) and (self._is_strlike(n.left) or
+                                          self._is_strlike(n.right)):
+            return self._join(self._parts(n.left) + self._parts(n.right), n)
+        return n
+
+    def visit_JoinedStr(self, n):
+        self.generic_visit(n)
+        return self._join(list(n.values), n)
 
     def visit_UnaryOp(self, n):
         self.generic_visit(n)
@@ -109,6 +161,17 @@ class Canon(ast.NodeTransformer):
         self.generic_visit(n)
         return self._stmt_ifexp(n)
 
+    def visit_Expr(self, n):
+        self.generic_visit(n)
+        # `x.fill(c)` == `x[:] = c`
+        v = n.value
+        if isinstance(v, ast.Call) and isinstance(v.func, ast.Attribute) and \
+                v.func.attr == 'fill' and len(v.args) == 1 and not v.keywords:
+            tgt = ast.copy_location(ast.Subscript(
+                v.func.value, ast.Slice(None, None, None), ast.Store()), v)
+            return ast.copy_location(ast.Assign([tgt], v.args[0]), n)
+        return n
+
     def visit_AugAssign(self, n):
         self.generic_visit(n)
         return self._stmt_ifexp(n)
@@ -120,6 +183,15 @@ class Canon(ast.NodeTransformer):
     def visit_Call(self, n):
         self.generic_visit(n)
         f = n.func
+        # any([..]) == any(..): a list comprehension as the only argument of
+        # a consuming builtin is written as a generator
+        if isinstance(f, ast.Name) and f.id in (
+                'any', 'all', 'sum', 'min', 'max', 'tuple', 'sorted', 'set',
+                'list') and len(n.args) == 1 and not n.keywords and \
+                isinstance(n.args[0], ast.ListComp):
+            lc = n.args[0]
+            n.args = [ast.copy_location(ast.GeneratorExp(
+                lc.elt, lc.generators), lc)]
         if isinstance(f, ast.Attribute) and isinstance(f.value, ast.IfExp):
             import copy
             c = f.value
@@ -132,11 +204,68 @@ class Canon(ast.NodeTransformer):
                                                call(c.orelse)), n)
         return n
 
+    def visit_For(self, n):
+        self.generic_visit(n)
+        # `for a, b in zip(A, B):` -> `for _zi, b in enumerate(B):` with a
+        # replaced by A[_zi] (A a plain name / attribute, a not re-bound)
+        it, tg = n.iter, n.target
+        if isinstance(it, ast.Call) and isinstance(it.func, ast.Name) and \
+                it.func.id == 'zip' and len(it.args) == 2 and not \
+                it.keywords and isinstance(tg, ast.Tuple) and len(
+                    tg.elts) == 2 and isinstance(tg.elts[0], ast.Name) and \
+                isinstance(it.args[0], (ast.Name, ast.Attribute)):
+            a = tg.elts[0].id
+            rebound = any(isinstance(x, ast.Name) and x.id == a and
+                          isinstance(x.ctx, (ast.Store, ast.Del))
+                          for st in n.body + n.orelse for x in ast.walk(st))
+            used_zi = any(isinstance(x, ast.Name) and x.id == '_zi'
+                          for x in ast.walk(n))
+            if not rebound and not used_zi:
+                import copy
+                A = it.args[0]
+
+                class R(ast.NodeTransformer):
+                    def visit_Name(self, m):
+                        if m.id == a and isinstance(m.ctx, ast.Load):
+                            return ast.copy_location(ast.Subscript(
+                                copy.deepcopy(A), ast.Name('_zi', ast.Load()),
+                                ast.Load()), m)
+                        return m
+                n.body = [R().visit(st) for st in n.body]
+                n.target = ast.copy_location(ast.Tuple(
+                    [ast.Name('_zi', ast.Store()), tg.elts[1]], ast.Store()),
+                    tg)
+                n.iter = ast.copy_location(ast.Call(
+                    ast.Name('enumerate', ast.Load()), [it.args[1]], []), it)
+        return n
+
     def visit_ListComp(self, n):
         self.generic_visit(n)
         if len(n.generators) == 1:
             g = n.generators[0]
             e = n.elt
+            # identity comprehension
+            if not g.ifs and isinstance(g.target, ast.Name) and isinstance(
+                    e, ast.Name) and e.id == g.target.id:
+                return ast.copy_location(ast.Call(
+                    ast.Name('list', ast.Load()), [g.iter], []), n)
+            # small constant range: unrolled
+            it = g.iter
+            if not g.ifs and isinstance(g.target, ast.Name) and isinstance(
+                    it, ast.Call) and isinstance(it.func, ast.Name) and \
+                    it.func.id == 'range' and len(it.args) == 1 and \
+                    isinstance(it.args[0], ast.Constant) and isinstance(
+                        it.args[0].value, int) and 0 < it.args[0].value <= 8:
+                import copy
+                elts = []
+                for k in range(it.args[0].value):
+                    class K(ast.NodeTransformer):
+                        def visit_Name(self, m):
+                            if m.id == g.target.id:
+                                return ast.copy_location(ast.Constant(k), m)
+                            return m
+                    elts.append(K().visit(copy.deepcopy(e)))
+                return ast.copy_location(ast.List(elts, ast.Load()), n)
             if not g.ifs and not g.is_async and isinstance(
                     g.target, ast.Name) and isinstance(e, ast.Call) and \
                     not e.keywords and len(e.args) == 1 and isinstance(
@@ -160,11 +289,83 @@ class Canon(ast.NodeTransformer):
         return n
 
 
+def _loop_to_comp(init, loop):
+    """`X = []` / `X = {..}` followed by `for T in IT: X.append(E)` /
+    `for T in IT: X[K] = V` (optionally under one `if C:`)  ->
+    `X = [E for T in IT if C]` / `X = {.., **{K: V for T in IT if C}}`
+    (None if the pair does not have that shape)."""
+    if not (isinstance(init, ast.Assign) and len(init.targets) == 1 and
+            isinstance(loop, ast.For) and not loop.orelse and
+            len(loop.body) == 1):
+        return None
+    x = ast.unparse(init.targets[0])
+    v, st = init.value, loop.body[0]
+    ifs = []
+    if isinstance(st, ast.If) and not st.orelse and len(st.body) == 1:
+        ifs, st = [st.test], st.body[0]
+
+    def mentions(e):
+        return x in {ast.unparse(n) for n in ast.walk(e)
+                     if isinstance(n, (ast.Name, ast.Subscript,
+                                       ast.Attribute))}
+    if mentions(loop.iter) or any(mentions(c) for c in ifs):
+        return None
+    gen = ast.comprehension(loop.target, loop.iter, ifs, 0)
+    if isinstance(v, ast.List) and not v.elts and isinstance(st, ast.Expr) \
+            and isinstance(st.value, ast.Call) and isinstance(
+                st.value.func, ast.Attribute) and st.value.func.attr == \
+            'append' and ast.unparse(st.value.func.value) == x and len(
+                st.value.args) == 1 and not st.value.keywords:
+        e = st.value.args[0]
+        if mentions(e):
+            return None
+        new = ast.ListComp(e, [gen])
+    elif isinstance(v, ast.Dict) and isinstance(
+            st, ast.Assign) and len(st.targets) == 1 and isinstance(
+                st.targets[0], ast.Subscript) and ast.unparse(
+                    st.targets[0].value) == x:
+        k, val = st.targets[0].slice, st.value
+        if mentions(val) or mentions(k):
+            return None
+        new = ast.DictComp(k, val, [gen])
+        if v.keys:
+            new = ast.Dict(list(v.keys) + [None], list(v.values) + [new])
+    else:
+        return None
+    out = ast.copy_location(ast.Assign(init.targets, ast.copy_location(
+        new, init.value)), init)
+    return out
+
+
+def _comp_blocks(node):
+    for fld in ('body', 'orelse', 'finalbody'):
+        v = getattr(node, fld, None)
+        if isinstance(v, list) and v and isinstance(v[0], ast.stmt):
+            for st in v:
+                _comp_blocks(st)
+            i = 0
+            while i < len(v) - 1:
+                r = _loop_to_comp(v[i], v[i + 1])
+                if r is not None:
+                    v[i:i + 2] = [Canon().visit(r)]
+                    i = max(i - 1, 0)
+                else:
+                    i += 1
+    for h in getattr(node, 'handlers', []) or []:
+        _comp_blocks(h)
+
+
 def canon(tree):
     if isinstance(tree, list):
         return [canon(t) for t in tree]
     out = Canon().visit(tree)
-    ast.fix_missing_locations(out)
+    if isinstance(out, list):
+        for o in out:
+            _comp_blocks(o)
+    else:
+        _comp_blocks(out)
+    ast.fix_missing_locations(out) if not isinstance(out, list) else [
+        ast.fix_missing_locations(o) for o in out]
     return out
 
 
